@@ -1461,7 +1461,10 @@ class sptensor:
         tnt = mutatable_sptensor.spmatrix().transpose()
         y = tnt.transpose().dot(tnt)
         if r < y.shape[0] - 1:
-            _, v = scipy.sparse.linalg.eigs(y, r)
+            # y is real symmetric: use the symmetric solver as tensor.nvecs does
+            w, v = scipy.sparse.linalg.eigsh(y, r)
+            v = v[:, (-np.abs(w)).argsort()]
+            v = v[:, :r]
         else:
             logging.debug(
                 "Greater than or equal to sptensor.shape[n] - 1 eigenvectors requires"
